@@ -57,10 +57,12 @@ type bsim struct {
 	session []lop
 	poisoned bool
 
+	imp       *bp.MutableTree // state-synced twin: imported from an export of the latest version, then fed the same ops
 	ref       *bp.MutableTree // reference twin: default config, plain simdb, never faulted/reopened/pruned
 	refLatest int64
 
 	keys   []string
+	removed []string
 	maxHeight int
 	valCtr int
 	stop   bool
@@ -161,6 +163,22 @@ func (s *bsim) applyRef(o lop) {
 		return // the twin only mirrors sessions that can become the next version
 	}
 	s.applyRefRaw(o)
+	s.applyImp(o)
+}
+
+func (s *bsim) applyImp(o lop) {
+	if s.imp == nil {
+		return
+	}
+	var err error
+	if o.del {
+		_, _, err = s.imp.Remove([]byte(o.k))
+	} else {
+		_, err = s.imp.Set([]byte(o.k), o.v)
+	}
+	if err != nil {
+		s.fail("imported-twin-op-error", "op on the tree imported from an export failed: %v", err)
+	}
 }
 
 func (s *bsim) applyRefRaw(o lop) {
@@ -197,6 +215,8 @@ func (s *bsim) opSet() {
 	k, v := s.pickKey(), s.newVal()
 	if s.c.Chance(1, 6) && len(s.keys) > 0 { // 90/10 style appends
 		k = fmt.Sprintf("zz%06d", s.valCtr)
+	} else if len(s.removed) > 0 && s.c.Chance(1, 5) { // re-create a recently removed key (routing around old separators)
+		k = s.removed[s.c.Intn(len(s.removed))]
 	}
 	_, had := s.working[k]
 	upd, err := s.t.Set([]byte(k), v)
@@ -244,6 +264,10 @@ func (s *bsim) opRemove() {
 		return // not a mutation: the session stays clean
 	}
 	delete(s.working, k)
+	s.removed = append(s.removed, k)
+	if len(s.removed) > 16 {
+		s.removed = s.removed[1:]
+	}
 	o := lop{del: true, k: k}
 	s.session = append(s.session, o)
 	s.applyRef(o)
@@ -498,6 +522,7 @@ func (s *bsim) opSave() {
 		delete(s.mach.FailAt, s.mach.Ops)
 		s.r.Fault("db_error_in_save")
 		s.poisoned = true
+		s.imp = nil
 		return
 	}
 	h, ver, err := s.t.SaveVersion()
@@ -531,6 +556,18 @@ func (s *bsim) opSave() {
 		kernel.Harnessf("ref twin SaveVersion: v=%d err=%v (want v%d)", rv, rerr, ver)
 	}
 	s.refLatest = ver
+	if s.imp != nil {
+		ih, iv, ierr := s.imp.SaveVersion()
+		if ierr != nil || iv != ver {
+			s.fail("imported-twin-save", "tree imported at an earlier version: SaveVersion -> v%d err=%v, want v%d", iv, ierr, ver)
+			return
+		}
+		s.r.Probe("imported_twin_versions_compared")
+		if !bytes.Equal(ih, h) {
+			s.fail("hash-vs-imported-twin", "version %d: root hash %x on the tree that lived through the history, %x on a tree that was imported from an export of an earlier version and then applied the same operations", ver, h, ih)
+			return
+		}
+	}
 	if !bytes.Equal(h, rh) {
 		s.fail("hash-vs-twin", "version %d: root hash %x, reference twin (no reopen, default cache, no fast index, no pruning) %x; config %+v", ver, h, rh, s.cf)
 	}
@@ -544,12 +581,18 @@ func (s *bsim) opRollback() {
 	s.poisoned = false
 	if s.loaded == s.latest {
 		s.ref.Rollback()
+		if s.imp != nil {
+			s.imp.Rollback()
+		}
+	} else {
+		s.imp = nil
 	}
 	s.r.Probe("rollbacks")
 	s.checkReads("after rollback", s.t, s.working, 2)
 }
 
 func (s *bsim) opLoadVersion() {
+	s.imp = nil // the imported twin only follows an undisturbed latest lineage
 	v := s.pickVersion()
 	if v == 0 {
 		return
@@ -571,6 +614,7 @@ func (s *bsim) opLoadVersion() {
 }
 
 func (s *bsim) ensureLatestClean() bool {
+	s.imp = nil // the imported twin only follows an undisturbed latest lineage
 	if s.loaded != s.latest || len(s.session) > 0 || s.poisoned {
 		s.c.Event("discard session, back to latest %d", s.latest)
 		if s.loaded == s.latest {
@@ -739,6 +783,7 @@ func (s *bsim) recoverAfterCrash(where string) {
 
 // afterOpen re-synchronises the model with what survived and checks it.
 func (s *bsim) afterOpen(why string) {
+	s.imp = nil // the imported twin only follows an undisturbed latest lineage
 	s.ref.Rollback() // whatever session the twin mirrored died with the process
 	v := s.t.Version()
 	if v > s.latest || v < s.durable {
@@ -824,6 +869,16 @@ func (s *bsim) afterOpen(why string) {
 
 func (s *bsim) opExportImport() {
 	v := s.pickVersion()
+	if s.imp == nil && s.c.Bool() && s.loaded == s.latest && !s.poisoned {
+		// state-sync scenario: export the latest version (saving the session first)
+		if len(s.session) > 0 {
+			s.opSave()
+			if s.stop || s.poisoned {
+				return
+			}
+		}
+		v = s.latest
+	}
 	if v == 0 || len(s.all[v]) == 0 {
 		return
 	}
@@ -873,6 +928,12 @@ func (s *bsim) opExportImport() {
 		return
 	}
 	s.checkReads(fmt.Sprintf("imported v%d", v), dst, s.all[v], 4)
+	if !s.stop && v == s.latest && s.loaded == s.latest && len(s.session) == 0 && !s.poisoned {
+		// keep the imported tree as a state-synced twin: it receives every later operation and
+		// must keep producing the same root hashes as the tree that lived through the history
+		s.imp = dst
+		s.r.Probe("imported_twin_started")
+	}
 }
 
 // opFastAudit: C26 (i)+(ii) at a quiescent point. A second handle with the
@@ -1056,8 +1117,8 @@ func runBptree(c *kernel.Choices, p kernel.Params) *kernel.Result {
 		w[8] += 2
 		w[9] += 2
 	case "C24":
-		w[8] += 3
-		w[11] += 2
+		w[8] += 2
+		w[11] += 5
 	}
 	// initial fill so that splits exist early
 	fill := c.Intn(len(s.keys) + 1)
